@@ -168,6 +168,8 @@ where
     F: Fn(&V, &mut CaseStats) -> CaseResult + Send + Sync,
 {
     let engine_started = Instant::now();
+    // one small leak per engine: the crash handler needs a name that outlives everything
+    let label_static: &'static str = Box::leak(label.to_string().into_boxed_str());
     let nw = workers().max(1).min(cases.max(1) as usize);
     let stop = Arc::new(AtomicBool::new(false));
     let infra_msg: Arc<Mutex<Option<String>>> = Arc::new(Mutex::new(None));
@@ -277,6 +279,7 @@ where
                         }
                         let mut st = CaseStats::default();
                         let case_started = Instant::now();
+                        let _crash = crate::engine::CrashScope::enter(&v, label_static);
                         let r = match crate::engine::catch(|| f(&v, &mut st)) {
                             Ok(r) => r,
                             Err(p) => Err(Fail::Infra(format!("harness panic: {} at {}", p.message, p.location))),
@@ -468,11 +471,16 @@ impl Report {
                 let new_evals = ev["coverage"]["evaluations"].as_u64().unwrap_or(0);
                 let new_nt = ev["coverage"]["distinct_nontrivial"].as_u64().unwrap_or(0);
                 let new_wall = ev["wall_s"].as_f64().unwrap_or(0.0);
+                // the first pass (the full one) keeps its samples and counters; the second adds its evaluations
+                let new_violations = ev["violations"].as_u64().unwrap_or(0);
+                let old_violations = old["violations"].as_u64().unwrap_or(0);
+                ev = old;
                 ev["coverage"]["evaluations"] = json!(old_evals + new_evals);
                 // the same generated cases are executed again under the other profile: not new distinct cases
                 ev["coverage"]["distinct_nontrivial"] = json!(old_nt.max(new_nt));
                 ev["coverage"]["profiles"] = json!({"verif (release + debug-assertions + overflow-checks)": old_evals, tag: new_evals});
                 ev["wall_s"] = json!(old_wall + new_wall);
+                ev["violations"] = json!(old_violations.max(new_violations));
             }
         }
         if let Err(e) = std::fs::write(&p, serde_json::to_string_pretty(&ev).unwrap()) {
